@@ -430,8 +430,9 @@ def run(prop, tier, replay=None):
         cpath = scratch.path("cases.jsonl")
         if replay:
             rp = json.load(open(replay))
-            cases = rp["cases"] if rp.get("replay_driver") != "conc" else []
+            cases = rp["cases"] if rp.get("replay_driver") not in ("conc", "wssession") else []
             replay_ups = rp["cases"] if rp.get("replay_driver") == "conc" else None
+            replay_ws = rp["cases"] if rp.get("replay_driver") == "wssession" else None
             design = dict(states=0, transitions=0)
         else:
             fams = FAMILIES[prop]
@@ -617,6 +618,21 @@ def run(prop, tier, replay=None):
                                                h=dict(recv=[]), crash="upload of %d bytes, chunk %d, reader %s: %d chunks, %d bytes, complete=%s; stats events in=%d out=%d begin=%d end=%d" % (
                                                    ev["len"], ev["limit"], ev["mode"], ev["chunks"], ev["bytes"], ev["concat"],
                                                    ev.get("inpayloads", -1), ev.get("outpayloads", -1), ev.get("begins", -1), ev.get("ends", -1))))
+        wstat = collections.Counter()
+        if prop in ("C05", "C06") and (not replay or replay_ws is not None):
+            # WebSocket sessions at the frame level: WsSession.tla's frame sequences on a real socket
+            from . import wssession as WS
+            wv, wstat, wdes = WS.violations(prop, tier, scratch, harness, seed, replay_ws if replay else None)
+            for key, v in wv.items():
+                kf = C.match_finding(findings, prop, v["signature"])
+                if kf:
+                    known[kf["id"]] += 1
+                    continue
+                o = v["observed"]
+                v["observed"] = dict(c=dict(tag="wssession", proto="ws", shape="bidi", codec="json", comp=""), cl=dict(http=o["status"], status=dict(present=False), msgs=[]),
+                                     h=dict(recv=[]), crash=v["what"], ws=o)
+                v["signature"].update(code=None, shape="bidi", codec="json", comp="", truncated=False, stats="stats" in o["opts"])
+                viol[(key[0], "ws-session", "+".join(key[1]), "json", "", None, False, "stats" in o["opts"])] = v
         for fid, n in sorted(known.items()):
             f = next(x for x in findings if x["id"] == fid)
             print("KNOWN-FINDING: property=%s %s (%d observations this run)" % (prop, f["what"], n))
@@ -644,7 +660,9 @@ def run(prop, tier, replay=None):
                          "streaming shape / limit set / metadata set / options installed)."),
                    samples=samples, exhaustive=False, **{k: v for k, v in stat.items() if k not in ("rpcs",)},
                    proxied_calls=pstat_calls, httpbody_uploads=ustat["retains"], httpbody_chunks=ustat["chunks"], httpbody_bytes=ustat["bytes"],
-                   known_findings=dict(known))
+                   known_findings=dict(known),
+                   ws_sessions=wstat["sessions"], ws_frames=wstat["frames"], ws_messages=wstat["msgs"], ws_fragmented_messages=wstat["fragmented"],
+                   ws_clean_ends=wstat["cleanEnds"], ws_error_ends=wstat["errEnds"], ws_client_side_judged=wstat["clientJudged"])
         C.write_evidence(prop, tier, "model_checking", cov,
                          ["direct drive through Mux.ServeHTTP with httptest (HTTP/2 framing for gRPC is emulated by ProtoMajor=2 and recorder trailers)",
                           "code tables pinned to code.go and the Twirp specification; HTTP status after streamed replies unspecified",
